@@ -145,6 +145,36 @@ theorem path_table_check_sound (c : Circuit) (h : isPotB c (tbl (pathTable c)) =
     IsPot c (tbl (pathTable c)) :=
   isPotB_sound c _ h
 
+/-- what `select_blk` may return (the specification the correspondence validates every recorded
+    choice against) is a block of the eval set – the theorems above, which hold for every such
+    choice, cover it -/
+theorem select_blk_choice_is_legal (c : Circuit) (E : Nat → Bool) (b : Nat) (h : selectOk c E b = true) :
+    E b = true ∧ b < c.net.n := by
+  simp only [selectOk, Bool.and_eq_true, decide_eq_true_eq] at h
+  exact ⟨h.1.1, h.1.2⟩
+
+/-- With the choices `select_blk` makes (a block without pending inputs if there is one) a burst
+    on an acyclic network whose eval set is closed under successors – the FIRST PASS in particular –
+    evaluates every pending block at most once: the first pass of a DAG costs one evaluation per
+    CBlock however many paths there are, and is never reported as unstable.
+
+    Partial: stated for networks without on_output events.  The full statement (with CBlock→SBlock
+    event feedback) does not hold for the code: `select_blk` looks at direct CBlock inputs only,
+    so with `a --event--> s --> b` it may evaluate `b` before `a` and `b` again afterwards; for
+    that case the bound is the path count of `first_pass_within_budget`. -/
+theorem first_pass_select_blk_linear_partial (c : Circuit) (P : Nat → Nat) (hP : IsPot c P)
+    (hne : ∀ b, (c.blk b).events = []) (outS : Nat → Val) (choices : List Nat)
+    (hsel : choicesOk c (start c outS) choices = true)
+    (hn : c.cblocks.length ≤ c.nblocks) :
+    (burst c (start c outS) choices).fin ≠ .unstable ∧
+    (burst c (start c outS) choices).evals ≤ c.cblocks.length := by
+  have hl : c.limit = 3 * c.nblocks := by rw [limit_counts_all_blocks, margin_as_documented]
+  have hcard : card (start c outS).E c.cblocks.length = c.cblocks.length := card_all _
+  have := burst_select c P hP hne (start c outS) (start_closed c outS) choices hsel
+    (by rw [hcard, hl]; simp only [start]; omega)
+  rw [hcard] at this
+  exact this
+
 /-! ### non-vacuity -/
 
 /-- three inverters in a ring (tests/test_simulator.py::test_instability_1) -/
@@ -185,5 +215,17 @@ example : IsPot diamond (tbl (pathTable diamond)) :=
   path_table_check_sound diamond (by decide +kernel)
 
 example : pathTable diamond = [3, 3, 2, 1] := by decide +kernel
+
+/-- the diamond without its event: hypotheses of `first_pass_select_blk_linear_partial` are
+    satisfiable, choices 0,1,2,3 are choices of `select_blk` -/
+def diamond0 : Circuit :=
+  { cblocks := [{ fn := .not, pos := [.s 0] }, { fn := .or, pos := [.s 0] },
+                { fn := .xor, pos := [.c 0, .c 1] }, { fn := .not, pos := [.s 1] }],
+    skinds := [.input, .input], nblocks := 6 }
+
+example : isPotB diamond0 (tbl (pathTable diamond0)) = true
+    ∧ choicesOk diamond0 (start diamond0 fun _ => Val.bool false) [0, 1, 2, 3] = true
+    ∧ choicesOk diamond0 (start diamond0 fun _ => Val.bool false) [2, 0, 1, 3] = false := by
+  decide +kernel
 
 end Edzed.Burst
